@@ -9,7 +9,7 @@ import re
 import unicodedata
 from typing import Any, Dict, Iterable, List, Optional
 
-from harness.core import Case, Check, Finding, Infra, call, canon
+from harness.core import Case, Check, Finding, Infra, OUTSIDE, call, canon
 from harness.guard import guarded
 
 ALPHA = 'aB1.-=„ \t _é'            # adversarial alphabet (12 symbols)
@@ -410,7 +410,9 @@ class C17(Check):
                   'membership test has no order), with line ends over all pairs of characters inside / between / outside '
                   'the set; detectors are built with ignorecase on and off (trained and as arbitrary records, capitals in '
                   'either junction word); every call is made twice on the same detector / argument objects and must '
-                  'answer the same, leaving detector, break-character container and word lists unchanged')
+                  'answer the same, leaving detector, break-character container and word lists unchanged. Wave 5: the '
+                  'strip helpers on an EMPTY word (no token of any line is empty) are compared in cases of their own '
+                  'tagged outside-quantifier: raise or return, a difference there is recorded only')
     assumptions = [
         're.split(r"\\b", s) yields the maximal runs of \\w / non-\\w characters with an empty first/last piece at a '
         'word edge (sampled: op re_split)',
@@ -568,6 +570,32 @@ class C17(Check):
             out.append(Case('pairs', {'B': None, 'det': {'gen': g}, 'pairs': pairs},
                             ['random', 'trained-detector', 'default-break']))
         out += self._wave4_cases(rng, quick)
+        return self._empty_words_apart(out)
+
+    @staticmethod
+    def _empty_words_apart(cases: List[Case]) -> List[Case]:
+        """STATEMENT: "helper functions that strip hyphens or break characters remove only those characters" speaks
+        of the WORDS the helpers are handed, and the same statement says that splitting "never returns an empty token":
+        the empty string is no word of any line, so what remove_hyphen('') / remove_word_break_chars('', x) /
+        remove_word_break_chars(x, '') do (raise, or return something) is fixed by no clause (the oracle never judged
+        it either).  Those calls are still made and compared with the model, but in cases of their own tagged
+        core.OUTSIDE: a difference there is recorded in the evidence, it is no broken correspondence.  Every call with
+        two non-empty words / a non-empty word stays in its case and is compared exactly as before."""
+        out: List[Case] = []
+        for c in cases:
+            if c.kind != 'strip':
+                out.append(c)
+                continue
+            ps, ws = c.input['pairs'], c.input['words']
+            ps_in = [p for p in ps if p[0] != '' and p[1] != '']
+            ws_in = [w for w in ws if w != '']
+            if len(ps_in) == len(ps) and len(ws_in) == len(ws):
+                out.append(c)
+                continue
+            if ps_in or ws_in:
+                out.append(Case('strip', dict(c.input, pairs=ps_in, words=ws_in), c.tags))
+            out.append(Case('strip', dict(c.input, pairs=[p for p in ps if p[0] == '' or p[1] == ''],
+                                          words=[w for w in ws if w == '']), list(c.tags) + [OUTSIDE, 'empty-word']))
         return out
 
     # wave 4 (everything below draws from rng AFTER the streams above, which are unchanged) ---------------------
